@@ -323,9 +323,13 @@ def work_order(inst) -> dict:
 # ---------------------------------------------------------------------------------------------------
 # (scan)
 
-SCAN_CANDS = {"r": "dir", "r/a": "dir", "r/a/m.py": "file", "r/a/n.py": "file", "r/b.py": "file", "r/c": "dir", "r/c/k.py": "file", "r/c/d.py": "file"}
+SCAN_CANDS = {"r": "dir", "r/a": "dir", "r/a/m.py": "file", "r/a/n.py": "file", "r/b.py": "file", "r/c": "dir", "r/c/k.py": "file", "r/c/d.py": "file",
+              "r/a/nn.py": "file",  # matches the back-reference pattern below
+              "r/c.py": "file"}  # a file beside a package of the same name: enumeration order must not matter
 SCAN_LINES = {"r/a/m.py": ["import r.b", "from r.c import k"], "r/b.py": ["import r.a.n"], "r/c/k.py": ["import r.c.d", "import r.a.m"]}
 SCAN_EXCL = ("*d.py", "*n.py*", "*__pycache__*")
+# regex exclusions incl. a back-reference (group numbering must not depend on the position in the tuple)
+SCAN_REGEX_EXCL = (r".*/(\w)\1\.py$", r".*/(c)/(k)\.py$", r".*__pycache__.*")
 
 
 class TaggedFS(FSModel):
@@ -343,16 +347,17 @@ class TaggedFS(FSModel):
         return out
 
 
-def scan_outcome(model: TaggedFS, excl_perm: int):
+def scan_outcome(model: TaggedFS, excl_perm: int, mode: str = "glob"):
     from pytestarch import get_evaluable_architecture
 
     res = []
-    perms = list(itertools.permutations(SCAN_EXCL))
+    perms = list(itertools.permutations(SCAN_EXCL if mode == "glob" else SCAN_REGEX_EXCL))
     with symfs(model):
         for tag, ex in ((1, perms[0]), (2, perms[excl_perm % len(perms)])):
             model.tag = tag
             try:
-                ev = get_evaluable_architecture("/symfs/r", "/symfs/r", exclusions=tuple(ex))
+                kw = {"exclusions": tuple(ex)} if mode == "glob" else {"exclusions": (), "regex_exclusions": tuple(ex)}
+                ev = get_evaluable_architecture("/symfs/r", "/symfs/r", **kw)
                 n, i, h = graph_view(ev)
                 res.append((frozenset(n), frozenset(i), frozenset(h)))
             except Exception as e:  # noqa: BLE001
@@ -366,10 +371,10 @@ def work_scan(inst) -> dict:
     model = TaggedFS(SCAN_CANDS, SCAN_LINES, fixed=inst.get("fixed", {}), lines_fixed=True)
 
     def fn():
-        return scan_outcome(model, inst["excl_perm"])
+        return scan_outcome(model, inst["excl_perm"], inst.get("mode", "glob"))
 
     def make_payload(assign):
-        return {"kind": "scan", "excl_perm": inst["excl_perm"], "fixed": inst.get("fixed", {}), "assign": [[list(k), v] for k, v in sorted(assign.items(), key=str)]}
+        return {"kind": "scan", "excl_perm": inst["excl_perm"], "mode": inst.get("mode", "glob"), "fixed": inst.get("fixed", {}), "assign": [[list(k), v] for k, v in sorted(assign.items(), key=str)]}
 
     return check_no_mismatch(label_of(inst), fn, inst["cap"], make_payload, replay_detail, all_keys=model.all_keys(), sample={"candidate_paths": sorted(SCAN_CANDS), "exclusions": list(SCAN_EXCL)})
 
@@ -401,7 +406,9 @@ def instances(tier: str) -> list[dict]:
                 "vars": [["p.a.x", "p.c"], ["p.a.x", "p.b"], ["p.b", "p.a"], ["p.b", "p.c"], ["p.b", "p.a.x"], ["p.a", "p.c"], ["p.a", "p.b"]]})
     out += [dict(i, cap=CAPS[tier]) for i in order_instances(tier)]
     for k in range(3 if tier == "quick" else 6):
-        out.append({"part": "scan", "excl_perm": k, "cap": CAPS[tier], "fixed": {"r/a": True, "r/c": True}})
+        out.append({"part": "scan", "excl_perm": k, "cap": CAPS[tier], "fixed": {"r/a": True, "r/c": True, "r/c.py": False}})
+        out.append({"part": "scan", "excl_perm": k + 1, "mode": "regex", "cap": CAPS[tier], "fixed": {"r/a": True, "r/c": True, "r/c.py": False, "r/b.py": True}})
+    out.append({"part": "scan", "excl_perm": 1, "cap": CAPS[tier], "fixed": {"r/a": True, "r/c": True, "r/c.py": True, "r/a/nn.py": False, "r/a/n.py": False}})
     from vf.props import c15nd
 
     out += c15nd.instances(tier)
@@ -481,11 +488,23 @@ def replay_detail(payload: dict):
     d = tempfile.mkdtemp(prefix="c15_", dir=os.environ.get("VERIF_SCRATCH"))
     try:
         model.materialise(assign, d)
-        perms = list(itertools.permutations(SCAN_EXCL))
+        mode = payload.get("mode", "glob")
+        perms = list(itertools.permutations(SCAN_EXCL if mode == "glob" else SCAN_REGEX_EXCL))
         views = []
-        for ex in (perms[0], perms[payload["excl_perm"] % len(perms)]):
-            ev = get_evaluable_architecture(os.path.join(d, "r"), os.path.join(d, "r"), exclusions=tuple(ex))
-            views.append(graph_view(ev))
+        import pathlib
+
+        real_iterdir = pathlib.Path.iterdir
+        # the enumeration order of a real directory is an input supplied by the operating system: the replay
+        # supplies two of them (ascending / descending) around the unmodified scanner
+        orders = [lambda it: sorted(it), lambda it: sorted(it, reverse=True)]
+        try:
+            for order, ex in zip(orders, (perms[0], perms[payload["excl_perm"] % len(perms)])):
+                pathlib.Path.iterdir = lambda self, order=order: iter(order(list(real_iterdir(self))))
+                kw = {"exclusions": tuple(ex)} if mode == "glob" else {"exclusions": (), "regex_exclusions": tuple(ex)}
+                ev = get_evaluable_architecture(os.path.join(d, "r"), os.path.join(d, "r"), **kw)
+                views.append(graph_view(ev))
+        finally:
+            pathlib.Path.iterdir = real_iterdir
         ok = views[0] == views[1]
         return ok, f"two scans of {sorted(model.concrete(assign)[0])} with exclusion tuples {perms[0]} / {perms[payload['excl_perm'] % len(perms)]}: " + ("equal" if ok else f"{views[0]} vs {views[1]}"), {}
     finally:
